@@ -12,8 +12,8 @@ CLAIMED = {
         note="Partial: CPython's string hashing, numpy's generator and process-global state (lru_cache, keys added to user codon tables, marks on shared specification objects) cannot be exhibited by the Gallina model; that half is decided by differential runs only. Trusted: Coq kernel, the static scan (AST of the two files), subprocess launcher.",
         technique="Coq proof (permutation invariance of every set-consuming operation) + static audit of set-iteration sites + differential runs across hash seeds and process histories", design="6/C05"),
     "C07": dict(
-        text="Theorems (Coq): the synonymous-codon mutation space of EnforceTranslation (both strands, every generated genetic table without dual-use stop codons, every start-codon policy) contains exactly the sequences whose coding region translates to the wanted protein / whose first codon obeys the policy; the MaximizeCAI score is minus a sum of independent per-codon gaps and is 0 exactly when every codon is a most-frequent synonym. Together with C04 (exact space), C12/C15 (candidates never leave the space), C09 (codon-aligned localization is score-faithful), C06 (local exhaustive search exactly optimal) and C03 these give 'same protein, per-codon optimum'. End to end (Coq, C07_cai_optimize_end_to_end): for the problem {EnforceTranslation over a coding region on the forward strand without start-codon policy (any generated genetic code without dual-use stops) as only constraint, MaximizeCAI over the same region as only objective, mutation space built from the constraint's restrictions, codon tables consistent with the code, randomization threshold above 64}, for every usable starting state and configuration optimize() returns, the sequence still encodes the same protein, EVERY codon is a most-frequent synonym, the length is unchanged and no nucleotide outside the region is touched - nothing is assumed about the mutation space (TranslationSpace.v discharges the local-space hypothesis of the more general theorems: optimize() closes every gap of ANY separable objective, SolverE.v; MaximizeCAI under an abstract space hypothesis, CaiEnd.v). The reverse strand, start-codon policies, HarmonizeRCA, named and user tables and offsets are decided by the differential run against an independent per-codon table lookup: partial.",
-        note="Partial: the end-to-end theorem covers MaximizeCAI on the forward strand without start-codon policy; the other variants are differential; named codon tables are the sandbox shim's; log/ratio floats compared with 1e-9 tolerance.",
+        text="Theorems (Coq): the synonymous-codon mutation space of EnforceTranslation (both strands, every generated genetic table without dual-use stop codons, every start-codon policy) contains exactly the sequences whose coding region translates to the wanted protein / whose first codon obeys the policy; the MaximizeCAI score is minus a sum of independent per-codon gaps and is 0 exactly when every codon is a most-frequent synonym. Together with C04 (exact space), C12/C15 (candidates never leave the space), C09 (codon-aligned localization is score-faithful), C06 (local exhaustive search exactly optimal) and C03 these give 'same protein, per-codon optimum'. End to end (Coq, C07_cai_optimize_end_to_end and ..._reverse_strand): for the problem {EnforceTranslation over a coding region on either strand without start-codon policy (any generated genetic code without dual-use stops) as only constraint, MaximizeCAI over the same region as only objective, mutation space built from the constraint's restrictions, codon tables consistent with the code, randomization threshold above 64}, for every usable starting state and configuration optimize() returns, the sequence still encodes the same protein, EVERY codon is a most-frequent synonym, the length is unchanged and no nucleotide outside the region is touched - nothing is assumed about the mutation space (TranslationSpace.v discharges the local-space hypothesis of the more general theorems: optimize() closes every gap of ANY separable objective, SolverE.v; MaximizeCAI under an abstract space hypothesis, CaiEnd.v). Start-codon policies, HarmonizeRCA, named and user tables and offsets are decided by the differential run against an independent per-codon table lookup: partial.",
+        note="Partial: the end-to-end theorems cover MaximizeCAI (both strands) without start-codon policy; the other variants are differential; named codon tables are the sandbox shim's; log/ratio floats compared with 1e-9 tolerance.",
         technique="Coq proof (restriction meaning for EnforceTranslation; per-codon decomposition of CAI; induction over the reported locations of optimize_objective on top of the exact optimality of the local exhaustive search) + vm_compute correspondence of the classes + end-to-end oracle on the implementation", design="6/C07"),
     "C04": dict(
         text="Theorems (Coq): the space built by from_optimization_problem's merge procedure is EXACT - a sequence of the right length is a member iff it satisfies every restriction choice (merge_with keeps exactly the variants compatible with ALL overlapping choices, extract_varying_region is exact), the space is a well-formed partition, 'unsolvable' (a choice left without variant) iff no sequence satisfies all restrictions, constrain_sequence moves the initial sequence into the space. The per-class meaning of restrict_nucleotides (AvoidChanges, EnforceTranslation both strands/all start-codon policies, EnforceSequence IUPAC, EnforceChoice, EnforceChanges, AvoidRareCodons) is modelled and tied by correspondence, and decided by brute force over all 4^L sequences (membership vs evaluate().passes) - that half is not a Coq theorem.",
